@@ -152,7 +152,7 @@ class Parser:
             raise SyntaxError('messages are not sorted')
         self._last_msgid = msgid  # pylint: disable=attribute-defined-outside-init
         assert encoding is not None
-        msgid, *msgctxt = msgid.split(b'\x04', 1)
+        *msgctxt, msgid = msgid.split(b'\x04', 1)
         kwargs = dict(msgid=msgid.decode(encoding))
         if msgctxt:
             [msgctxt] = msgctxt
